@@ -157,14 +157,21 @@ def run(ctx: Context, rep) -> None:
     # paths contain the sub-directory
     gns = fctx.methods["_get_new_shard"]
     cs = fctx.methods["close_shard"]
+    from sa.rules.common import interproc
+
+    def sub_hook(f):
+        return lambda e, st, rec: frozenset({"subdir"}) if dotted(e) == \
+            "self._relative_path_from_split" else None
+
     for fn, what in ((gns, "shard file"), (cs, "shard list")):
-        tf = TagFlow(ctx.cfg(fn), {}, hook=lambda e, st, rec: frozenset(
-            {"subdir"}) if dotted(e) == "self._relative_path_from_split"
-                     else None)
+        tf = TagFlow(ctx.cfg(fn), {}, hook=interproc(ctx, sub_hook)(fn))
         sinks = []
         for n in ctx.cfg(fn).calls():
-            if ctx.is_call(fn, n.ast, "file_info.FileInfo"):
-                sinks.append((n, ctx.arg(n.ast, 0, "file_path")))
+            if what == "shard file" and any(
+                    t.kind == "class" and t.cls.fq ==
+                    "sedpack.io.shard.shard.Shard"
+                    for t in ctx.res.resolve_call(fn, n.ast, count=False)):
+                sinks.append((n, ctx.arg(n.ast, 0, "shard_info")))
             if ctx.is_call(fn, n.ast, "ShardsList.load_or_create"):
                 sinks.append((n, ctx.arg(n.ast, 1, "relative_path_self")))
         rep.ob("C09.isolate", bool(sinks) and all(
@@ -328,20 +335,32 @@ def run(ctx: Context, rep) -> None:
            "pickling")
     gi = filler.methods["get_updated_infos"]
     ui = filler.methods["_update_infos"]
-    ok_ui = any(isinstance(c.func, ast.Attribute) and c.func.attr == "append"
-                and dotted(c.func.value) == "self._updated_infos" and any(
-                    ctx.is_call(ui, x, "ShardsList.write_config")
-                    for x in ast.walk(c) if isinstance(x, ast.Call))
-                for c in ui.calls()) and any(
-                    isinstance(n, ast.Return) and dotted(n.value) ==
-                    "self._updated_infos" for n in gi.body_nodes())
-    loops = [n for n in ui.body_nodes() if isinstance(n, ast.For)]
-    ok_ui = ok_ui and len(loops) == 1 and ast.unparse(loops[0].iter).endswith(
-        "shard_lists.values()")
+    ucfg = ctx.cfg(ui)
+
+    def uhook(e, st, rec):
+        if isinstance(e, ast.Attribute) and e.attr == "shard_lists":
+            return frozenset({"lists"})
+        if isinstance(e, ast.Call) and ctx.is_call(ui, e,
+                                                   "ShardsList.write_config"):
+            inner = rec(e.func.value) if isinstance(e.func, ast.Attribute) \
+                else frozenset()
+            return frozenset(inner | {"written"})
+        return None
+
+    utf = TagFlow(ucfg, {}, hook=uhook)
+    at_exit = utf.at(ucfg.exit).get("self._updated_infos", frozenset())
+    no_filter = not any(isinstance(x, (ast.If, ast.Break, ast.Continue,
+                                       ast.Slice)) or (
+        isinstance(x, ast.comprehension) and x.ifs)
+                        for x in ast.walk(ui.node))
+    ok_ui = {"lists", "written"} <= set(at_exit) and no_filter and any(
+        isinstance(n, ast.Return) and dotted(n.value) == "self._updated_infos"
+        for n in gi.body_nodes())
     rep.ob("C09.collect", ok_ui, loc=ui.loc(), where=ui.qualname,
-           construct="for list in context.shard_lists.values(): "
-           "_updated_infos.append(list.write_config(...))",
-           message="every list the worker wrote is reported back")
+           construct="_updated_infos <- write_config(...) of every list in "
+           f"context.shard_lists (carries {sorted(at_exit)})",
+           message="every list the worker wrote is written with digests and "
+           "reported back (no filter, slice or early exit)")
 
 
 _P = "src/sedpack/io/dataset_writing.py"
